@@ -77,7 +77,7 @@ finding("P15", ["C06"], "open", "Literal pattern 'x|yy' is unanchored: also acce
 finding("P16", ["C16"], "open", "openapi_bulk: component key is table_name.title() ('Foo_Bar') while routes reference the class name ('FooBar'): dangling $ref")
 finding("P17d", ["C19"], "open", "gen --emit sqlalchemy* with a name template defines `Foo` but exports the templated name in __all__")
 finding("P19", ["C07", "C15"], "open", "doctrans deletes the docstring of an async def")
-finding("P20", ["C15"], "open", "ReST docstring with a footer after :rtype:: footer lines are absorbed into the return type")
+finding("P20", ["C15"], "open", "ReST has no end-of-section notion: footer lines of a ReST docstring (original, or produced by converting a docstring with a footer to ReST) are absorbed into the last :type:/:rtype: value")
 finding(
     "P21", ["C01", "C08"], "open", "google/numpydoc: once any parameter has a default the return entry acquires an invented default",
     witnesses={"C01": [I([A5], RET, cells=[["google", True, False, True, False]])]},
@@ -98,12 +98,16 @@ finding(
     "P40", ["C01"], "open", "numpydoc with word_wrap: a 'Defaults to X' sentence that is wrapped between 'Defaults' and 'to' is not recognised, the default is lost",
     witnesses={"C01": [I([["ok", {"typ": "Optional[bool]", "doc": "for name for alpha count weight factor shape input window window factor mode output gamma", "default": True}]], cells=[["numpydoc", True, False, True, True]])]},
 )
-finding("P25", ["C02", "C08"], "open", "numpydoc docstrings embedded in indented code are not recognised: descriptions, header and return are lost")
+finding("P25", ["C02", "C08", "C15"], "open", "numpydoc docstrings embedded in indented code are not recognised: descriptions, header and return are lost")
 finding("P41", ["C02", "C08"], "open", "google docstrings embedded in indented code: the return entry is not recognised (presence / type / description of the return entry are lost or merged)")
 finding("P42", ["C02", "C08", "C05"], "open", "docstring emit at indent_level>0 inserts a blank line after the first line when it is followed by a single newline: with an empty header `Args:` is separated from its entries and google descriptions are lost (2 sqlalchemy emit tests pin the blank line)")
 finding("P43", ["C02"], "open", "code-quoted default in a signature format: class/function emit it as the string '```(np.zeros(9))```' and the parser then drops the parameter's type; the un-back-ticked form '(np.zeros(9))' loses its parentheses (class) or raises ValueError (function). Excluded from C02's generator by construction (counted), exercised by C08/C14")
 finding("P46", ["C08"], "open", "sqlalchemy declarative class: the header doc acquires more trailing blank/indented lines on every emit->parse round")
 finding("P47", ["C08"], "open", "description containing a type-hint trigger word or a 'default(s) to/is' fragment: the prose-derived type/default competes with the declared one, the default is re-typed (0 -> '0') and a terminal full stop appears only on the following round")
+finding("P48", ["C15"], "open", "docstring whose section's last line is the end of the text (no trailing newline): the splitter returns that line (or everything after the first character) as *footer*; on conversion the parameter is duplicated")
+finding("P49", ["C15"], "open", "numpydoc (and google after a Returns section) has no end-of-section notion: footer text after the section (also 'See Also\\n--------') is parsed as further parameters or absorbed into the return entry, in originals and in converted docstrings")
+finding("P50", ["C15"], "open", "ReST docstring with `:return:` followed by `:rtype:`: the splitter cuts the `:rtype:` line off the section and returns it as footer; converting such a docstring (to any style) appends a duplicate `:rtype:` line")
+finding("P51", ["C15"], "open", "header/args/footer split: the boundary between section and footer is misplaced by a few characters (numpydoc: the last description line or the return type's tail lands in the footer; with the unindented section as `current` the returned section is truncated); the three parts still tile the original exactly")
 finding("P26", ["C07"], "open", "doctrans drops comments inside a rewritten multi-line def header")
 finding("P27", ["C07"], "open", "doctrans turns a one-line `def f(a=1): return a` into invalid Python")
 finding("P28", ["C07"], "open", "doctrans does not recognise a raw docstring r\"\"\"...\"\"\": a second string is inserted")
@@ -172,6 +176,14 @@ W.append(("P29", "C08", I8([["a", {"typ": "List[str]", "doc": "the a"}]], format
 W.append(("P46", "C08", I8([A], formats=["sqlalchemy"])))
 W.append(("P47", "C08", I8([["a", {"typ": "int", "doc": "alpha. path the", "default": 0}]], formats=["doc_google"])))
 W.append(("P47", "C08", I8([["a", {"typ": "int", "doc": "mode this defaults to 5 limit", "default": 0}]], formats=["doc_rest"])))
+
+# ---- C15 witnesses (gen_doc.docstr dicts)
+W.append(('P48', "C15", {'style': 'rest', 'text': ':param a: pda', 'indent': 0, 'header_lines': [], 'params': [{'name': 'a', 'typ': None, 'default': None, 'doc': 'pda'}], 'rtyp': None, 'footer': False, 'footer_lines': [], 'section': ':param a: pda', 'lead_nl': False}))
+W.append(('P50', "C15", {'style': 'rest', 'text': 'hw0\n\n:param a: pda\n:return: rd\n:rtype: ```int```\n', 'indent': 0, 'header_lines': ['hw0'], 'params': [{'name': 'a', 'typ': None, 'default': None, 'doc': 'pda'}], 'rtyp': 'int', 'footer': False, 'footer_lines': [], 'section': ':param a: pda\n:return: rd\n:rtype: ```int```', 'lead_nl': False}))
+W.append(('P51', "C15", {'style': 'numpydoc', 'text': 'hw0 hw4\n\nParameters\n----------\nw : str\n    pdw\na : str\n    pda\n', 'indent': 0, 'header_lines': ['hw0 hw4'], 'params': [{'name': 'w', 'typ': 'str', 'default': None, 'doc': 'pdw'}, {'name': 'a', 'typ': 'str', 'default': None, 'doc': 'pda'}], 'rtyp': None, 'footer': False, 'footer_lines': [], 'section': 'Parameters\n----------\nw : str\n    pdw\na : str\n    pda', 'lead_nl': False}))
+W.append(('P49', "C15", {'style': 'numpydoc', 'text': 'hw1\n\nParameters\n----------\na : int\n    pda\n\nSee Also\n--------\nfw21 fw11\n', 'indent': 0, 'header_lines': ['hw1'], 'params': [{'name': 'a', 'typ': 'int', 'default': None, 'doc': 'pda'}], 'rtyp': None, 'footer': True, 'footer_lines': ['See Also', '--------', 'fw21 fw11'], 'section': 'Parameters\n----------\na : int\n    pda', 'lead_nl': False}))
+W.append(('P20', "C15", {'style': 'rest', 'text': 'hw1\n\n:param a: pda\n:type a: ```int```\n\nNotes:\n  \nfw0 fw0\n', 'indent': 0, 'header_lines': ['hw1'], 'params': [{'name': 'a', 'typ': 'int', 'default': None, 'doc': 'pda'}], 'rtyp': None, 'footer': True, 'footer_lines': ['Notes:', '  ', 'fw0 fw0'], 'section': ':param a: pda\n:type a: ```int```', 'lead_nl': False}))
+W.append(('P25', "C15", {'style': 'numpydoc', 'text': '\n    hw1\n\n    Parameters\n    ----------\n    a : int\n        pda\n', 'indent': 4, 'header_lines': ['hw1'], 'params': [{'name': 'a', 'typ': 'int', 'default': None, 'doc': 'pda'}], 'rtyp': None, 'footer': False, 'footer_lines': [], 'section': 'Parameters\n----------\na : int\n    pda', 'lead_nl': True}))
 
 
 def main():
